@@ -362,6 +362,42 @@ class Analyzer:
                 out.append(("len_notin", r, tuple(how[1])))
         return out
 
+    def enumerate_source(self, op, depth=0):
+        """root of the collection whose `iter().enumerate()` produced this index operand (`for (i, x) in a.iter().enumerate()`), else None"""
+        if op[0] not in ("C", "M") or depth > 12:
+            return None
+        l = op[1][0]
+        defs = self.B.defs.get(l, [])
+        if len(defs) != 1:
+            return None
+        bi, si, kind, st = defs[0]
+        if kind == "call":
+            p = st["f"].get("o") or st["f"].get("p") or ""
+            if re.search(r"Iterator::enumerate$", p) and st["args"]:
+                # the enumerated iterator: slice::iter / Vec deref / into_iter of a collection
+                return self.operand_root(st["args"][0]) if st["args"][0][0] in ("C", "M") else None
+            if re.search(r"(Iterator::next|IntoIterator::into_iter|::iter|::deref)$", p) and st["args"]:
+                return self.enumerate_source(st["args"][0], depth + 1)
+            return None
+        rv = st[2]
+        if rv[0] == "Use" and rv[1][0] in ("C", "M"):
+            flds = [e[1] for e in rv[1][1][1:] if isinstance(e, list) and e[0] == "."]
+            if flds and flds[-1] != 0:
+                return None          # the item (field 1) of the (index, item) pair, not the index
+            return self.enumerate_source(["C", [rv[1][1][0]]], depth + 1)
+        if rv[0] in ("Ref", "RawPtr"):
+            return self.enumerate_source(["C", [rv[2][0]]], depth + 1)
+        if rv[0] == "Cast" and rv[2][0] in ("C", "M"):
+            return self.enumerate_source(["C", [rv[2][1][0]]], depth + 1)
+        return None
+
+    def equal_lengths(self, r1, r2, facts):
+        """a dominating test established len(r1) == len(r2)"""
+        for f in facts:
+            if f[0] == "cmp" and f[1] == "==" and f[2][0] == "len" and f[3][0] == "len" and {f[2][1], f[3][1]} == {r1, r2}:
+                return True
+        return False
+
     def range_bounds(self, op, depth=0, line=None):
         """(lo sym, hi sym, inclusive) of a range the operand refers to, when it is built in this body from RangeInclusive::new(lo, hi) or Range { start, end }"""
         if op[0] == "K" and "::promoted[" in str(op[1]) and line is not None:
@@ -919,6 +955,10 @@ def discharge(F, A, s):
                     return ("index-guard", "dominating comparison establishes index < len")
             if ln[0] == "c" and A.less_than(ix, ln, facts):
                 return ("index-guard", "dominating comparison establishes index < %d" % ln[1])
+            if ln[0] == "len":
+                src = A.enumerate_source(s.ops[1])
+                if src is not None and (src == ln[1] or A.equal_lengths(src, ln[1], facts)):
+                    return ("enumerate-index", "the index counts the items of a collection whose length was tested equal to this one's")
             return None
         if k in ("DivisionByZero", "RemainderByZero"):
             # the assert's operand is the dividend; the divisor is the operand compared with zero in the condition
@@ -1011,6 +1051,9 @@ def discharge(F, A, s):
                         return ("len-guard", "index %d under a dominating test establishing len >= %d" % (ix[1], lb))
                 elif ix[0] != "?" and A.less_than(ix, ln, facts):
                     return ("index-guard", "dominating comparison establishes index < len")
+                src = A.enumerate_source(args[1])
+                if src is not None and (src == r or A.equal_lengths(src, r, facts)):
+                    return ("enumerate-index", "the index counts the items of a collection whose length was tested equal to this one's")
             return None
     return None
 
